@@ -436,7 +436,14 @@ where
     }
 
     fn decode_eof(&mut self, buf: &mut BytesMut) -> Result<Option<Self::Item>, Self::Error> {
-        let content = read_utf8(buf.as_ref())?;
+        let content = match read_utf8(buf.as_ref()) {
+            Ok(content) => content,
+            Err(e) => {
+                // Every exit of `decode_eof` must leave a fresh decoder: the next frame starts from scratch.
+                self.reset();
+                return Err(e);
+            }
+        };
         let span = Span::new(content);
         let result = match self.decode_inner(span) {
             Ok((rem, output)) => {
